@@ -2,6 +2,15 @@ package main
 
 // Checks is the registry: which harness entry points decide which property, under which bounds.
 var Checks = []Check{
+	{ID: "C15", Entries: []Entry{
+		{Pkg: "node", Func: "VerifC15AcceptorCookie", What: "real startAcceptor with and without an acceptor cookie (listener stubbed): the cookie demanded from incoming peers, size limit, flags"},
+		{Pkg: "node", Func: "VerifC15Tables", Shards: 2, Params: map[string]int64{"ops": 3, "names": 1}, Thorough: map[string]int64{"ops": 4, "names": 2},
+			What: "symbolic history of EnableSpawn/DisableSpawn (shard 0) or EnableApplicationStart/DisableApplicationStart (shard 1) with symbolic node lists, then getEnabledSpawn/isEnabledApplicationStart for every (name, peer): allowed => justified by an unrevoked Enable"},
+	}},
+	{ID: "C14", Entries: []Entry{
+		{Pkg: "node", Func: "VerifC14NodeDown", Shards: 5, Params: map[string]int64{"relations": 3}, Thorough: map[string]int64{"relations": 4},
+			What: "two local consumers hold a symbolic set of links/monitors on pid/name/alias/event/node targets on nodes x and y (real process API, fake connections), remote consumers on x hold links on a local process; then real RouteNodeDown(x) + CleanupNode: exactly one exit/down with ErrNoConnection per relation on x, y untouched, idempotent"},
+	}},
 	{ID: "C18", Entries: []Entry{
 		{Pkg: "node", Func: "VerifC18Events", Shards: 3, Params: map[string]int64{"ops": 3}, Thorough: map[string]int64{"ops": 5},
 			What: "producer + stranger + two consumers: symbolic history of publish (with/without token), link/unlink/monitor/demonitor on a real event with buffer 0..2 and Notify on/off, then unregister or owner termination; per-subscriber delivery once and in order, buffered snapshot, start/stop notifications, exit/down"},
